@@ -16,14 +16,14 @@ theorem travSel_complete_all (v : Variant) (hsp : v.savePrev = true) (rs : List 
     unfold travSel
     dsimp only
     have hnd' := List.nodup_cons.1 hnd
-    have hstay : ¬ (v.savePrev = false ∧ j ∉ (callHandlersSel d j (rs.contains j)).1.conns) := by
+    have hstay : ¬ (v.savePrev = false ∧ j ∉ (callHandlersSel v d j (rs.contains j)).1.conns) := by
       intro x; rw [hsp] at x; cases x.1
     simp only [hstay, if_false]
     rw [seq2_events]
     rcases List.mem_cons.1 hi with e | e
     · subst e
       refine List.mem_append_left _ ?_
-      have hcall : callHandlersSel d i (rs.contains i) = handleIdle d i := by
+      have hcall : callHandlersSel v d i (rs.contains i) = handleIdle d i := by
         unfold callHandlersSel
         rcases hq with q | q
         · have hnr : i ∉ rs := by
@@ -33,10 +33,10 @@ theorem travSel_complete_all (v : Variant) (hsp : v.savePrev = true) (rs : List 
       rw [hcall]
       exact handleIdle_closes hc ht
     · have hij : i ≠ j := fun x => hnd'.1 (x ▸ e)
-      have o := others_callHandlersSel d j (rs.contains j)
-      have hnow : (callHandlersSel d j (rs.contains j)).1.now = d.now := o.2.2.2.1
-      have hrec : (callHandlersSel d j (rs.contains j)).1.c i = d.c i := (o.2.2.2.2 i hij).2.2.2
-      have := travSel_complete_all v hsp rs rest (callHandlersSel d j (rs.contains j)).1 i hnd'.2 e
+      have o := others_callHandlersSel v d j (rs.contains j)
+      have hnow : (callHandlersSel v d j (rs.contains j)).1.now = d.now := o.2.2.2.1.1
+      have hrec : (callHandlersSel v d j (rs.contains j)).1.c i = d.c i := (o.2.2.2.2 i hij).2.2.2
+      have := travSel_complete_all v hsp rs rest (callHandlersSel v d j (rs.contains j)).1 i hnd'.2 e
         (by rw [hrec]; exact hc) (by rw [hrec]; exact hq) (by rw [hrec, hnow]; exact ht)
       rw [hrec] at this
       exact List.mem_append_right _ this
@@ -46,16 +46,16 @@ theorem roundSelect_complete {v : Variant} (hv : Fixed v) (hsp : v.savePrev = tr
     (hq : (d.c i).unread = false ∧ (d.c i).peerClosed = false)
     (ht : checkTimedOut d.now (d.c i) = true) :
     Event.tmoClose i (d.c i).aware ∈ (roundSelect v d).2 := by
-  let d1 := if d.cfg.allowSuspend then resumeSuspended d else d
+  let d1 := if d.cfg.allowSuspend then resumeSuspended v d else d
   let d2 : Daemon := { d1 with dataPending := false }
   let d3 := (processNew v d2).1
   have h1 : Inv d1 := by
-    show Inv (if d.cfg.allowSuspend then resumeSuspended d else d); split; exact inv_resumeSuspended h; exact h
+    show Inv (if d.cfg.allowSuspend then resumeSuspended v d else d); split; exact inv_resumeSuspended hv.2.2.2.2 h; exact h
   have h2 : Inv d2 := inv_flag h1 false
   have h3 : Inv d3 := inv_processNew hv h2
-  have k2 : Keep i d d2 := Keep.trans (keep_resume h i hi) (keep_flags i d1 d2 rfl rfl rfl rfl)
-  have k3 : Keep i d d3 := Keep.trans k2 (keep_processNew v h2 i (k2.2.2.1 hi))
-  obtain ⟨n1, _, n3, n4⟩ := k3
+  have k2 : Keep i d d2 := Keep.trans (keep_resume v h i hi) (keep_flags i d1 d2 rfl rfl rfl rfl rfl)
+  have k3 : Keep i d d3 := Keep.trans k2 (keep_processNew v h2 i (k2.2.2.2.1 hi))
+  obtain ⟨n1, _, _, n3, n4⟩ := k3
   have hc3 : (d3.c i).closed = false := by rw [n4.2.2.2.1]; exact hc
   have ht3 : checkTimedOut d3.now (d3.c i) = true := by
     rw [n1]; unfold checkTimedOut at ht ⊢; rw [n4.1, n4.2.1, n4.2.2.1]; exact ht
